@@ -5,6 +5,7 @@ import (
 	"go/token"
 	"go/types"
 	"sort"
+	"strings"
 
 	"golang.org/x/tools/go/ssa"
 )
@@ -226,8 +227,20 @@ func freshBuffers(c *Check, rule string, inScope func(*ssa.Function) bool) int {
 				objKey := exprKey(obj, 0)
 				sameObj := func(v ssa.Value) bool { return v != nil && exprKey(v, 0) == objKey }
 				fresh := func(i ssa.Instruction) bool {
-					if name, bf, base, ok := bufMethodCall(i); ok && name == "Reset" && bf == g.bf && sameObj(base) {
+					if freshensBuffer(i, g.bf, sameObj) {
 						return true
+					}
+					// a helper method of the object that empties or replaces the buffer
+					if ci, ok := i.(ssa.CallInstruction); ok {
+						if _, isDefer := i.(*ssa.Defer); !isDefer {
+							if h := normFn(p, ci.Common().StaticCallee()); h != nil && isRepoFn(h) && len(h.Blocks) > 0 && len(h.Blocks) <= 8 {
+								for ai, a := range ci.Common().Args {
+									if sameObj(a) && ai < len(h.Params) && helperFreshens(h, h.Params[ai], g.bf) {
+										return true
+									}
+								}
+							}
+						}
 					}
 					if v, ok := i.(ssa.Value); ok && v == unspill(obj) && isCtor(v, g.bf) {
 						return true
@@ -311,4 +324,56 @@ func freshBuffers(c *Check, rule string, inScope func(*ssa.Function) bool) int {
 	emit = true
 	pass()
 	return n
+}
+
+// freshensBuffer: i empties the buffer field bf of the object accepted by
+// sameObj — Reset, or the assignment of a newly created buffer to the field.
+func freshensBuffer(i ssa.Instruction, bf bufField, sameObj func(ssa.Value) bool) bool {
+	if name, f2, base, ok := bufMethodCall(i); ok && name == "Reset" && f2 == bf && sameObj(base) {
+		return true
+	}
+	st, ok := i.(*ssa.Store)
+	if !ok {
+		return false
+	}
+	own, fld, base, ok := fieldOfAddr(st.Addr)
+	if !ok || own != bf.owner || fld != bf.field || !sameObj(base) {
+		return false
+	}
+	switch v := st.Val.(type) {
+	case *ssa.Alloc:
+		return true // &strings.Builder{} / new(bytes.Buffer)
+	case *ssa.UnOp:
+		// a zero value: *new(T) with no store into it
+		if al, ok := v.X.(*ssa.Alloc); ok && v.Op == token.MUL {
+			for _, r := range *al.Referrers() {
+				if _, isStore := r.(*ssa.Store); isStore {
+					return false
+				}
+			}
+			return true
+		}
+	case *ssa.Call:
+		if o := calleeObj(v); o != nil && o.Pkg() != nil && (o.Pkg().Path() == "bytes" || o.Pkg().Path() == "strings") && strings.HasPrefix(o.Name(), "New") {
+			return len(v.Call.Args) == 0
+		}
+	}
+	return false
+}
+
+// helperFreshens: every path through h empties the buffer field of its
+// parameter obj.
+func helperFreshens(h *ssa.Function, obj *ssa.Parameter, bf bufField) bool {
+	same := func(v ssa.Value) bool { return unspill(v) == ssa.Value(obj) }
+	hs := mustHold(h, func(i ssa.Instruction) bool { return freshensBuffer(i, bf, same) }, func(ssa.Instruction) bool { return false })
+	n := 0
+	for _, b := range h.Blocks {
+		if ret, ok := b.Instrs[len(b.Instrs)-1].(*ssa.Return); ok && b != h.Recover {
+			n++
+			if !hs.At(ret) {
+				return false
+			}
+		}
+	}
+	return n > 0
 }
